@@ -239,7 +239,12 @@ func (c *httpsCloner) putKV(kv dns.SVCBKeyValue) {
 // putIPs returns the underlying arrays of ips into c if possible.
 func (c *httpsCloner) putIPs(ips []net.IP) {
 	for _, ip := range ips {
-		if cap(ip) >= 16 {
+		// Only reuse the arrays that have the exact capacity of the ones
+		// allocated by appendIPs.  Hints of messages that weren't created by the
+		// cloner, for example of the unpacked ones, may be parts of one larger
+		// buffer, and so putting 16-byte windows of those into the pool would
+		// make the arrays in the pool overlap.
+		if cap(ip) == 16 {
 			c.ip.Put((*[16]byte)(ip[:16]))
 		}
 	}
